@@ -55,13 +55,35 @@ def gen_cases(chk):
                 v = bytes(rng.choice(b"v \r\n") for _ in range(rng.randint(0, 5)))
                 nvs.append(hexs(nm) + ":" + hexs(v))
             cases.append("respadd %d %d %s" % (st if st in (200, 404, 204, 304, 100) else 200, rng.choice([0, 9]), ",".join(nvs)))
+    # sequences of builder operations on ONE response object, is_valid() asked in between (Q): a verdict given earlier
+    # must not outlive a later change of the headers
+    good = [b"X-A: 1\r\n", b"X-Data: abcdefgh\r\n", b"Server: s\r\n", b""]
+    bad = [b"X-A: 1\r\n\r\nHTTP/1.1 200 OK\r\n", b"\r\nX: y\r\n", b"A: b\n\nC: d\r\n", b"X-Data: a\r\n\r\n", b"A: b\r\n\nC: d\r\n"]
+    for _ in range(400 if chk.tier == "quick" else 8000):
+        ops = []
+        if rng.random() < 0.3:
+            ops.append("C:" + hexs(rng.choice(good + bad)))
+        for _ in range(rng.randint(1, 6)):
+            k = rng.random()
+            if k < 0.3:
+                ops.append("Q")
+            elif k < 0.5:
+                ops.append("S:" + hexs(rng.choice(good + bad + bad)))
+            elif k < 0.75:
+                v = rng.choice([b"v", b"abc", b"a\r\n\r\nb", b"x\n\ny", b"long-value-0123456789"])
+                ops.append("F:%s:%s" % (hexs(rng.choice([b"X-B", b"Y", b"X-Data"])), hexs(v)))
+            elif k < 0.85:
+                ops.append("L:%d" % rng.choice([0, 5, 123]))
+            else:
+                ops.append(rng.choice(["V", "H", "I:%d:%s" % (rng.randrange(0, 40), hexs(rng.choice([b"v", b"a\r\n\r\nb"])))]))
+        cases.append("respops %d - %s %d" % (rng.choice([200, 404]), ";".join(ops), rng.choice([0, 7])))
     return cases
 
 
 def oracle(chk, case, impl):
     """property stated on the implementation's own output"""
     t = case.split(" ")
-    if t[0] not in ("respmsg", "respadd") or not impl.startswith("valid="):
+    if t[0] not in ("respmsg", "respadd", "respops") or not impl.startswith("valid="):
         return
     valid = impl[6] == "1"
     msg = unhex(impl.split("msg=")[1])
